@@ -161,6 +161,56 @@ def roles_cfg(consts, invariants, view=True):
     return s + "INVARIANTS " + " ".join(invariants) + "\nCHECK_DEADLOCK FALSE\n"
 
 
+PROXY_MON = ["M_ProxyTickAdoptsView", "M_ProxyTxnOutcome", "M_OnlyLeaderApplies", "M_ProxyTxnFaithful", "M_ProxyRefusedNotWritten", "M_FollowerNeverWrites",
+             "M_FollowerNeverStreamsOwnHistory", "M_ProxyWatchFaithful", "M_ProxyWatchAnswered", "M_ProxyWatchEndsWithClient", "M_ProxyScript"]
+
+
+def proxy_cfg(consts, invariants, props=None, view=True):
+    s = cfg_constants(consts) + "INIT Init\nNEXT Next\n"
+    if view:
+        s += "VIEW View\n"
+    s += "INVARIANTS " + " ".join(invariants) + "\n"
+    if props:
+        s += "PROPERTIES " + " ".join(props) + "\n"
+    return s + "CHECK_DEADLOCK FALSE\n"
+
+
+def proxy_part(work, binp, cov, quick, seed, prop):
+    """C18 part 3, "... or forwards it to the leader": Proxy.tla model-checked; its behaviours executed on the real etcd proxy of a
+    follower against two real etcd gRPC servers (leadership, election view and node deaths scripted, the proxy's loop observed)."""
+    base = dict(Nodes={"a", "b"}, MaxSteps=7 if quick else 9, StickyClient=False, GenHist=False)
+    r = tlc(work, "Proxy.tla", proxy_cfg(base, ["OnlyLeaderApplies", "WatchFollowsClient"], props=["TickAdoptsView"]), timeout=1800, name="mcproxy")
+    if r["violated"] or not r.get("ok"):
+        raise Undecided("TLC on Proxy.tla: %s %s\n%s" % (r["violated"], r["error"], r["tail"][-2000:]))
+    cov["states"] += r["distinct"]; cov["transitions"] += r["states"]
+    cov["mc_runs"].append(dict(module="Proxy.tla", config="follower proxy, 2 serving nodes, behaviours of %d steps" % base["MaxSteps"], distinct_states=r["distinct"],
+                               states_generated=r["states"], invariants=["OnlyLeaderApplies", "WatchFollowsClient"], properties=["TickAdoptsView"]))
+    rs = tlc(work, "Proxy.tla", proxy_cfg(dict(base, StickyClient=True), ["OnlyLeaderApplies"], props=["TickAdoptsView"]), timeout=900, name="mcproxy2")
+    cov["mc_runs"].append(dict(module="Proxy.tla", config="a client that is kept when the view names another node (what the loop must not do)", counterexample_found=bool(rs["violated"])))
+    n = 32 if quick else 240
+    g = tlc(work, "Proxy.tla", proxy_cfg(dict(base, MaxSteps=6, GenHist=True), ["Dump"], view=False), workers=1, timeout=900,
+            extra=["-simulate", "num=%d" % (n * 8), "-depth", "8", "-seed", str(seed)], name="genproxy")
+    behs = parse_behaviours(g["outfile"], limit=n, seed=seed)
+    if not behs:
+        raise Undecided("no behaviours of Proxy.tla generated\n" + g["tail"][-1500:])
+    rep, traces, _ = seqrun(work, binp, behs, "memkv", 16, [], cmd="proxyrun", name="proxyrun")
+    acts = {}
+    for b in behs:
+        for st in json.loads(b)["steps"]:
+            acts[st["a"]] = acts.get(st["a"], 0) + 1
+    if not (acts.get("Tick") and acts.get("Txn") and acts.get("StartWatch")):
+        raise Undecided("vacuous: the generated behaviours of Proxy.tla lack a Tick, a Txn or a StartWatch: %s" % acts)
+    cov["evaluations"] += rep.get("behaviours", 0); cov["distinct_nontrivial"] += rep.get("nontrivial", 0)
+    cov["replay"].append(dict(what="behaviours of Proxy.tla on the real etcd proxy of a follower against two real etcd gRPC servers over one store",
+                              behaviours=rep.get("behaviours", 0), actions=acts))
+    log("proxyrun: %d behaviours of Proxy.tla on the real etcd proxy (%s)" % (rep.get("behaviours", 0), acts))
+    ntr, v = validate_all(work, traces, PROXY_MON, module="TraceProxy.tla", chunks=4)
+    cov["traces_validated_against_impl"] += ntr
+    if v:
+        return known_or_violation(prop, seed, v)
+    return 0
+
+
 def check_roles(prop, tier, seed):
     t0 = time.time()
     work = Work(prop)
@@ -226,11 +276,14 @@ def check_roles(prop, tier, seed):
                     violations += rc2
                     if rc2 == 0:
                         cov["known_findings"].append(mon)
+        if not violations:
+            violations += proxy_part(work, binp, cov, quick, seed, prop)
         cov["rule"] = ("(a) every request type of both APIs x {leader, follower} x {proxy on, off} x {leader reachable, unreachable, answering with an error} on the "
                        "real etcd.RPCServer / brain.Server with a recording backend, the real revision syncer and an HTTP /status endpoint; (b) behaviours of the "
                        "follower read protocol (Roles.tla, complete space for 2 reads and 2 leader commits) executed on the real revision syncer; all distinct")
-        cov["monitors"] = T_MON[prop] + ["M_ReadNotStaleSharedFetch", "M_ReadNotStaleLoweredRevision"]
-        write_evidence(prop, tier, seed, cov, ["the leader is an HTTP endpoint that answers /status as server.revisionHandler does; the proxy is a recording stub"],
+        cov["monitors"] = T_MON[prop] + ["M_ReadNotStaleSharedFetch", "M_ReadNotStaleLoweredRevision"] + PROXY_MON
+        write_evidence(prop, tier, seed, cov, ["part 1 and 2: the leader is an HTTP endpoint serving the real /status handlers, the proxy a recording stub; part 3: the real etcd proxy against two real etcd gRPC "
+                        "servers on the loopback interface that share one backend (leadership is the servers' election flag)"],
                        time.time() - t0, violations)
         return 1 if violations else 0
     finally:
